@@ -124,7 +124,8 @@ def one_trace(cfg, table, seeds, k, target, T):
            "table": [{"name": key, "cls": table[key]["cls"]} for key in keys], "waive": []}
     evs = [{"op": {"a": "save", "k": k}, "ret": {"vars": tokv(regA)}}]
     det = [{"volatile": [key for key in keys if table[key]["cls"] == "volatile"]}]
-    # target kinds: fresh (+ one warm-up step) | prior (run on other data) | factory-to (built by a
+    # target kinds: fresh (+ one warm-up step) | prior (run on other data) | prior-recycled (run on other data, then every
+    # fold reducer cleared with keepshape=True) | factory-to (built by a
     # factory and passed through .to) | copy-pristine / copy-prior (the classifier of the target is a
     # copy.deepcopy of a pristine template / of the target's own trained classifier)
     if target == "factory-to":
@@ -150,6 +151,8 @@ def one_trace(cfg, table, seeds, k, target, T):
         B.clf = _copy.deepcopy(template)
     for t in range(m):
         B.step(ys[t], yl[t], yr[t])
+    if target == "prior-recycled":
+        B.recycle()                            # run on other data, then reset for reuse (shapes kept)
     if target == "copy-prior":
         B.keepalive.append(B.clf)              # the original stays alive next to its copy
         B.clf = _copy.deepcopy(B.clf)
@@ -296,10 +299,10 @@ def run_traces(chk, rng, thorough):
             continue
         tables[json.dumps(cfg, sort_keys=True)] = table
         ks = list(range(0, T + 1))
-        extras = ("factory-to", "copy-pristine", "copy-prior")
+        extras = ("factory-to", "copy-pristine", "copy-prior", "prior-recycled")
         for k in ks:
             for target in ("fresh", "prior") + extras:
-                if k == 0 and target in ("prior", "copy-prior"):
+                if k == 0 and target in ("prior", "copy-prior", "prior-recycled"):
                     continue
                 if target in extras and thorough:
                     # thorough tier: every k on the first ten configurations, four values of k elsewhere
@@ -310,7 +313,7 @@ def run_traces(chk, rng, thorough):
                     if ci < 3:
                         if k not in (0, 1, 3, T):
                             continue
-                    elif k != 2 or target != extras[ci % 3]:
+                    elif k != 2 or target != extras[ci % len(extras)]:
                         continue
                 seeds = (seed, seed + 1, seed * 3 + k, seed * 5 + k + 1)
                 tr, det, spikes = one_trace(cfg, table, seeds, k, target, T)
